@@ -375,9 +375,23 @@ def run_core(ctx: Check, pid: str, n_quick: int = 110, n_thorough: int = 3000):
                 r["design"].setdefault("tag", "corpus")
                 results.append(r)
                 ctx.count("cases_corpus")
+    # The Lean driver is started on the first part of the designs while the real code is still
+    # being run on the rest (one `lean --run` start-up costs seconds; per line it is cheap).
+    lean_procs = 1 if ctx.quick else procs
+    early: list = []
+    ex = ThreadPoolExecutor(1)
+    fut = None
     if procs > 1:
         with mp.get_context("fork").Pool(procs) as pool:
-            results += pool.map(_work, jobs, chunksize=max(1, n // (procs * 8)))
+            it = pool.imap(_work, jobs, chunksize=max(1, n // (procs * 8)))
+            cut = len(jobs) * 3 // 5 if ctx.quick else 0
+            for _ in range(cut):
+                early.append(next(it))
+            early = results + early
+            results = []
+            if early and not any("error" in r for r in early):
+                fut = ex.submit(lean_outputs, ctx, [r["lean_in"] for r in early], lean_procs)
+            results = early + list(it)
     else:
         results += [_work(j) for j in jobs]
 
@@ -406,7 +420,13 @@ def run_core(ctx: Check, pid: str, n_quick: int = 110, n_thorough: int = 3000):
 
     # ---- Lean model on the same designs / valuations
     tm4 = time.time()
-    outs = lean_outputs(ctx, [r["lean_in"] for r in results], procs)
+    if fut is not None:
+        rest = results[len(early):]
+        outs = (lean_outputs(ctx, [r["lean_in"] for r in rest], lean_procs) if rest else [])
+        outs = fut.result() + outs
+    else:
+        outs = lean_outputs(ctx, [r["lean_in"] for r in results], lean_procs)
+    ex.shutdown(wait=False)
     tm5 = time.time()
     ctx.note(f"wall: proof stage {tm1 - tm0:.1f}s, model build {tm2 - tm1:.1f}s, real code (procs={procs}) {tm3 - tm2:.1f}s, "
              f"Lean driver ({sum(len(r['lean_in']) for r in results)} lines) {tm5 - tm4:.1f}s")
